@@ -31,6 +31,8 @@ const WRAPS: &[(&str, &str)] = &[
 /// bytes >= 224, so that the meaning of every earlier replay file is unchanged)
 const WRAPS_ESCAPED: &[(&str, &str)] = &[("", ":`"), ("(", ":`)"), ("", ":`."), ("\"", ":`\""), ("", "`:"), ("", ".`")];
 
+const ESCAPED_WORDS: &[&str] = &["ok\\", "a\\b", "k\"t", "sesh\\", "am\"i", "\\a"];
+
 fn wrap_of(w: u8) -> (&'static str, &'static str) {
     if w >= 224 {
         WRAPS_ESCAPED[(w - 224) as usize % WRAPS_ESCAPED.len()]
@@ -134,7 +136,11 @@ pub fn run_case(run: &Run, c: &Case, st: &mut Stats) -> Result<(), Failure> {
         let (l, w, t) = match &step.kind {
             StepKind::Type { word, wrap } => {
                 let (l, t) = wrap_of(*wrap);
-                (l.to_string(), ws[*word as usize % ws.len()].clone(), t.to_string())
+                // some word numbers (>= 30000 and 7 modulo 8 - none of the committed replay files uses one) select words
+                // whose stored form needs a JSON escape (back-slash, inner quote): the store must come back from the
+                // file exactly as it went in
+                let w = if *word >= 30000 && *word % 8 == 7 { ESCAPED_WORDS[(*word / 8) as usize % ESCAPED_WORDS.len()].to_string() } else { ws[*word as usize % ws.len()].clone() };
+                (l.to_string(), w, t.to_string())
             }
             StepKind::Retype { k } => {
                 if typed.is_empty() {
